@@ -154,21 +154,36 @@ def setup_profile():
     curid = ",".join([str(steps.index(cc) + 1) for cc in cur])
     for ii, st in enumerate(steps):
         print("  {}: {}".format(ii+1, st))
-    stp = input("(currently '{}'): ".format(curid))
-    if stp:
-        pf["preprocessing"] = [steps[int(ii) - 1] for ii in stp.split(",")]
+    while True:
+        stp = input("(currently '{}'): ".format(curid))
+        if stp:
+            try:
+                ids = [_menu_item(steps, ii) for ii in stp.split(",")]
+                # required steps present and in a valid order?
+                preproc.check_order(ids)
+            except (ValueError, IndexError) as exc:
+                print("Invalid selection: {}".format(exc))
+                continue
+            pf["preprocessing"] = ids
+        break
 
     print("\nSelect model number:")
     models = sorted(model.models_available.keys())
     idx = models.index(pf["model_key"])
     for ii, mm in enumerate(models):
         print("  {}: {}".format(ii+1, mm))
-    mod = input("(currently '{}'): ".format(idx + 1))
-    if mod:
-        newmod = models[int(mod) - 1]
-        if newmod != pf["model_key"]:
-            pf["model_key"] = newmod
-            pf["params_initial"] = ""
+    while True:
+        mod = input("(currently '{}'): ".format(idx + 1))
+        if mod:
+            try:
+                newmod = _menu_item(models, mod)
+            except (ValueError, IndexError) as exc:
+                print("Invalid selection: {}".format(exc))
+                continue
+            if newmod != pf["model_key"]:
+                pf["model_key"] = newmod
+                pf["params_initial"] = ""
+        break
 
     print("\nSet fit parameters:")
     params = pf.get_fit_params()
@@ -256,12 +271,27 @@ def setup_profile():
     rcurid = regs.index(rcur) + 1
     for ii, st in enumerate(regs):
         print("  {}: {}".format(ii+1, st))
-    rstp = input("(currently '{}'): ".format(rcurid))
-    if rstp:
-        pf["rating regressor"] = regs[int(rstp) - 1]
+    while True:
+        rstp = input("(currently '{}'): ".format(rcurid))
+        if rstp:
+            try:
+                pf["rating regressor"] = _menu_item(regs, rstp)
+            except (ValueError, IndexError) as exc:
+                print("Invalid selection: {}".format(exc))
+                continue
+        break
 
     print("\nDone. You may edit all parameters in '{}' ".format(pf.path)
           + "or alternatively run nanite-setup-profile again.")
+
+
+def _menu_item(items, number):
+    """Return the item selected by its (one-based) menu number"""
+    index = int(number)
+    if not 1 <= index <= len(items):
+        raise IndexError("Please choose a number between 1 and {}".format(
+            len(items)))
+    return items[index - 1]
 
 
 def setup_profile_parser():
